@@ -469,6 +469,7 @@ class Run:
         self.reqs, self.exp, self.meta = [], [], []   # model requests, impl answers, info
         self.freqs = []                               # (request, impl floats, meta) tolerance
         self.kernel_vs_def = []                       # round 3: arguments of betw / betwdef pairs
+        self.kernel_vs_enum = []                      # round 5: arguments of betw / betwenum pairs
         self.sigma_reqs = []
         self.newman_def = []                          # round 4
 
@@ -1494,6 +1495,11 @@ def round3_checks(ctx, run, A, directed, tier):
             run.kernel_vs_def.append(args)
             if n <= 9:
                 run.sigma_reqs.append(f"sigma {m} {enc_frs(w)} {rng.choice(nodes)}")
+                # round 5: the implementation against the definition by ENUMERATION of all shortest paths
+                # (right-hand side of `nsiBetweenness_eq_enumeration`), and the same inside the model
+                run.approx("betwenum " + args, [fl(got)], ("betwenum-rel", A, directed))
+                run.kernel_vs_enum.append(args)
+                ctx.count("model:betwenum")
         # a second call on the same object with other sources / targets (cached worker, different key)
         S2 = sorted(rng.sample(nodes, rng.randrange(1, n + 1)))
         T2 = sorted(rng.sample(nodes, rng.randrange(1, n + 1)))
@@ -1745,6 +1751,13 @@ def run(ctx):
                    "correspondence", not badk, "\n".join(badk[:5]))
     ctx.obligation(f"model: path-count recursion == sum over all enumerated shortest paths, exact "
                    f"({len(run_.sigma_reqs)} requests)", "correspondence", not bads, "\n".join(bads[:5]))
+
+    ke = run_.kernel_vs_enum
+    anse = common.driver(ctx.pid, ["betw " + a for a in ke] + ["betwenum " + a for a in ke])
+    bade = [ke[i][:200] for i in range(len(ke)) if anse[i] != anse[len(ke) + i] or anse[i] == "bad-request"]
+    ctx.obligation(f"model: kernel _nsi_betweenness == double sum over all ENUMERATED shortest paths, exact "
+                   f"({len(ke)} requests; theorem nsiBetweenness_eq_enumeration)", "correspondence", not bade,
+                   "\n".join(bade[:5]))
 
     nd = run_.newman_def
     ansn = common.driver(ctx.pid, nd)
